@@ -1590,4 +1590,10 @@ MUTANTS += [
     ("C06", "mda/base_mda_solver.py", r"                normalized_norms.append\(norm\(residual\[current_slice\]\) / initial_norm\)", '                normalized_norms.append(norm(residual[current_slice]))'),
     ("C06", "mda/base_mda_solver.py", r"                        initial_norm = float\(norm\(residual\[slice_\]\)\)", '                        initial_norm = float(norm(residual))'),
     ("C06", "mda/base_mda_solver.py", r"                        initial_norm = initial_norm if initial_norm != 0.0 else 1.0\n", '                        if initial_norm == 0.0:\n                            continue\n'),
+    # ---- C11 HDFDatabase.update_from_file (content level)
+    ("C11", "algos/_hdf_database.py", r"\(k for k in keys if k not in names_to_arrays\)", "(k for k in keys if k in names_to_arrays)"),
+    ("C11", "algos/_hdf_database.py", r"\(k for k in keys if k not in names_to_arrays\)", "(k for k in keys)"),
+    ("C11", "algos/_hdf_database.py", r"                scalar_dict\.update\(names_to_arrays\)\n", "                pass\n"),
+    ("C11", "algos/_hdf_database.py", r"keys\[int\(k\)\]: array\(v\)", "keys[0]: array(v)"),
+    ("C11", "algos/_hdf_database.py", r'array_name = f"arr_\{str_index\}"', 'array_name = f"arr_{raw_index + 1}"'),
 ]
